@@ -1,5 +1,6 @@
 import BiotiteModel.Model.C05Ext
 import BiotiteModel.Model.C05Ser
+import BiotiteModel.Model.C05Cont
 /-! Line-protocol driver for C05: one output line per input line. -/
 namespace BiotiteModel.Driver.C05
 open BiotiteModel BiotiteModel.C05 BiotiteModel.Proto
@@ -167,6 +168,94 @@ def step (_ : Unit) (line : String) : Unit × String :=
     | _ => "bad-op"
   ((), out)
 
-def main : IO Unit := loop () step
+/-! ### lazily deserialising containers: elements are integers, a serialised element is `some v` or unreadable (`none`) -/
+
+abbrev CSt := String × Cont (Option Int) Int      -- (level, state)
+
+def intCodec : Codec (Option Int) Int := ⟨some, id⟩
+
+def parseItem (s : String) : Option (String × Option Int) :=
+  match s.splitOn ":" with
+  | [k, v] => match parseStr k with
+    | some k => if v == "bad" then some (k, none) else v.toInt?.map fun v => (k, some v)
+    | none => none
+  | _ => none
+
+def parseItems (s : String) : Option (List (String × Option Int)) :=
+  if s == "_" then some [] else (s.splitOn ",").mapM parseItem
+
+def showItems (xs : List (String × Option Int)) : String :=
+  if xs.isEmpty then "_" else joinWith "," (xs.map fun p => showStr p.1 ++ ":" ++ (match p.2 with | some v => toString v | none => "bad"))
+
+def showGetErr : GetErr → String
+  | .keyError => "ERR:KeyError"
+  | .deserializationError => "ERR:DeserializationError"
+
+/-- key as stored: `BinaryCIFBlock` prefixes `_`; the others store it as given -/
+def keyIn (level k : String) : String := if level == "block" then blockKeyIn k else k
+def keyOut (level k : String) : String := if level == "block" then removePrefixUnderscore k else k
+
+/-- `BinaryCIFCategory.serialize` walks `self.items()` first (row count): every element is accessed, in order, and the
+first unreadable one aborts with `DeserializationError`; blocks and files serialise without touching their elements. -/
+def forceAll : List String → Cont (Option Int) Int → Option GetErr × Cont (Option Int) Int
+  | [], m => (none, m)
+  | k :: r, m => match m.get intCodec k with
+    | (.error e, m') => (some e, m')
+    | (.ok _, m') => forceAll r m'
+
+def contSerialize (lv : String) (m : Cont (Option Int) Int) : Option String × Cont (Option Int) Int :=
+  if lv == "category" then
+    if m.isEmpty then (some "ERR:SerializationError", m)      -- "At least one column is required"
+    else match forceAll m.keys m with
+      | (some e, m') => (some (showGetErr e), m')
+      | (none, m') => (none, m')
+  else (none, m)
+
+def contStep (st : Option CSt) (ws : List String) : Option CSt × String :=
+  match ws, st with
+  | ["cont_init", level, items], _ =>
+    match parseItems items with
+    -- `content` holds the names as they are in the file; for a block these are the `_`-prefixed category names
+    | some items => (some (level, if level == "block" then Cont.ofBlockContent items else Cont.ofContent items), "ok")
+    | none => (st, "bad-op")
+  | ["cont_get", k], some (lv, m) =>
+    match parseStr k with
+    | some k =>
+      let (r, m') := m.get intCodec (keyIn lv k)
+      (some (lv, m'), match r with | .ok v => s!"ok {v}" | .error e => showGetErr e)
+    | none => (st, "bad-op")
+  | ["cont_set", k, v], some (lv, m) =>
+    match parseStr k, v.toInt? with
+    | some k, some v => (some (lv, m.set (keyIn lv k) v), "ok")
+    | _, _ => (st, "bad-op")
+  | ["cont_del", k], some (lv, m) =>
+    match parseStr k with
+    | some k =>
+      let (r, m') := m.del (keyIn lv k)
+      (some (lv, m'), match r with | .ok _ => "ok" | .error e => showGetErr e)
+    | none => (st, "bad-op")
+  | ["cont_has", k], some (lv, m) =>
+    match parseStr k with
+    | some k => (st, s!"ok {(Dict.find m (keyIn lv k)).isSome}")
+    | none => (st, "bad-op")
+  | ["cont_keys"], some (lv, m) => (st, "ok " ++ showStrs (m.keys.map (keyOut lv)))
+  | ["cont_ser"], some (lv, m) =>
+    match contSerialize lv m with
+    | (some e, m') => (some (lv, m'), e)
+    | (none, m') => (some (lv, m'), "ok " ++ showItems (m'.serialize intCodec))
+  | ["cont_reread"], some (lv, m) =>
+    match contSerialize lv m with
+    | (some e, m') => (some (lv, m'), e)
+    | (none, m') =>
+      let content := m'.serialize intCodec
+      (some (lv, if lv == "block" then Cont.ofBlockContent content else Cont.ofContent content), "ok")
+  | _, _ => (st, "bad-op")
+
+def stepAll (st : Option CSt) (line : String) : Option CSt × String :=
+  match words line with
+  | w :: ws => if w.startsWith "cont_" then contStep st (w :: ws) else (st, (step () line).2)
+  | [] => (st, "bad-op")
+
+def main : IO Unit := loop none stepAll
 
 end BiotiteModel.Driver.C05
